@@ -102,5 +102,14 @@ CLAIMED = {
    note='Trusted: z3; specs/tlspec.py. The first four bytes of byte/text strings are concrete (the parser looks every payload up in its constructor table); '
         'strings shorter than 4 bytes are concrete; parsing of vectors of non-bare elements is not demanded; hash()-protocol facts are checked on the '
         'concrete witness runs only.'),
+ 'C17': dict(
+   text='Bounded symbolic execution of the real VmStack/VmStackValue/VmTuple/VmTupleRef/VmCellSlice/VmCont/VmControlData code against the VmStack schema '
+        'of block.tlb written out as an encoder: every 257-bit integer (64-bit form exactly when it fits, the other form parsed too), stacks of depth 0..2 '
+        'over every value kind (thorough: + 150 triples, depth 40), tuples of length 0..5 nested to depth 3, every VmCont constructor (control data with '
+        'nargs/cp present or absent), slices with consumed bits/refs; all integer fields and cell contents symbolic: the cell is the schema encoding, '
+        'parse(serialize(v)) equals v in order, serialising twice gives the same cell and leaves the caller\'s list, tuples, slices and builders unmodified; '
+        'stacks encoded by the specification are parsed to the values.',
+   note='Trusted: z3; the schema encoder in harness/C17.py; specs/cellspec.py. Control data holding a stack or a non-empty save list is outside the claim '
+        '(serialize and parse use different value forms there); -2^63 may use either integer form.'),
 }
 NOT_APPLICABLE = {}
